@@ -11,6 +11,9 @@ uint64_t nondet_u64();
 double nondet_double();
 float nondet_float();
 bool nondet_bool();
+#if defined(__clang__)
+__attribute__((nomerge))   // keep every assertion call site distinct (its label must stay a literal)
+#endif
 void __VERIFIER_assert(bool c, const char *label);
 void __VERIFIER_assume(bool c);
 }
